@@ -25,11 +25,15 @@ def run(ctx):
     files, summ = ctx.replay("blockexec", graph=dot, shards=16, maxlen=10, limit=limit, timeout=3000, chunk=100)
     ok = ctx.validate("TraceBlockExec", "TraceBlockExec.cfg", files, what="candidate lists (<=2) on 4 real nodes", timeout=3000)
     # candidate lists of three (order-dependent triples, a discard between two dependent transactions): simulation
-    sim = ctx.tlc_simulate("BlockExec", "BlockExec_c3.cfg", num=600 if ctx.quick() else 6000, depth=3, prefix="bx3")
+    # every candidate list of three on the first block: exhaustive graph (3617 lists), all of it (thorough) or a seeded sample (quick) on real nodes
+    dot3 = ctx.path("blockexec3.dot")
+    ctx.tlc_exhaustive("BlockExec", "BlockExec_c3b1.cfg", timeout=900, dump=dot3)
+    f3, s3 = ctx.replay("blockexec", graph=dot3, shards=16, maxlen=4, limit=800 if ctx.quick() else 0, name="blockexec3g", timeout=3000, chunk=100)
+    ctx.validate("TraceBlockExec", "TraceBlockExec.cfg", f3, what="candidate lists of three on the first block", timeout=3000)
+    ctx.extra["triples_first_block_transitions"] = s3["graph_edges"]
+    sim = ctx.tlc_simulate("BlockExec", "BlockExec_c3.cfg", num=400 if ctx.quick() else 2500, depth=3, prefix="bx3", timeout=1500)
     files3, summ3 = ctx.replay("blockexec", sim=sim, shards=16, name="blockexec3", timeout=3000, chunk=100)
     ctx.validate("TraceBlockExec", "TraceBlockExec.cfg", files3, what="simulated candidate lists of three", timeout=3000)
-    if not ctx.quick():
-        ctx.tlc_exhaustive("BlockExec", "BlockExec_c3.cfg", timeout=3000)
     ctx.cov["samples"] = summ["samples"]
     ctx.cov["exhaustive"] = not ctx.quick()
     ctx.extra["behaviours_total"] = summ["behaviours_total"]
